@@ -116,9 +116,11 @@ def _script(beh: list[dict], max_calls: int) -> list[dict]:
         elif a == "EndCall":
             ops.append({"op": "EndCall", "rel": args[0] == "TRUE"})
         elif a == "ReleaseHeld":
-            ops.append({"op": "ReleaseHeld", "off": int(args[0])})
+            ops.append({"op": "ReleaseHeld", "k": int(args[0])})
         elif a == "NewSegment":
             ops.append({"op": "NewSegment"})
+        elif a not in ("SUnary", "CUnary", "SProcess", "CData", "CDataCb", "SEnd"):
+            raise MachineryError(f"unlabelled step in the state graph: {a}")
         if b["state"]["st"]["pc"] == "idle":
             last_idle = len(ops)
     return ops[:last_idle]
@@ -263,6 +265,7 @@ def run(ctx: Ctx) -> None:
         "attach_static": sum(r["mode"] == "static" for r in runs), "attach_cached": sum(r["mode"] == "cached" for r in runs),
         "attach_percall": sum(r["mode"] == "percall" for r in runs),
         "segment_changed_on_live_connection": sum(any(o["op"] == "NewSegment" for o in r["script"]) for r in runs),
+        "held_batch_released_between_calls": sum(any(o["op"] == "ReleaseHeld" for o in r["script"]) for r in runs),
         "unknown_method": sum(any(o.get("out") == "unk" for o in r["script"]) for r in runs),
         "request_through_shm": sum(any(o.get("rq", "-") != "-" for o in r["script"]) for r in runs),
         "nested_dictionary_output": sum(any(o.get("co") == "o_n" for o in r["script"]) for r in runs),
